@@ -161,7 +161,33 @@ func swallowedErrors(f *ssa.Function) []swallowed {
 		if !flow.IsNilConst(rs[len(rs)-1]) {
 			continue
 		}
-		for _, g := range flow.NormGuards(flow.Guards(b)) {
+		// guards that dominate the return, plus - for a return block that is a join - the guards of each way in
+		// (an `if err == nil { return .. }` whose failing side falls through to a shared `return .., nil`)
+		guardSets := [][]flow.Guard{flow.NormGuards(flow.Guards(b))}
+		if len(b.Preds) > 1 && len(b.Instrs) <= 3 {
+			for _, p := range b.Preds {
+				// only the test whose failing side falls straight through into the shared return: an error that is
+				// looked at (logged) on its non-nil side and then dropped on purpose does not come in this way
+				if lastIfOf(p) == nil {
+					continue
+				}
+				if eg := flow.NormGuards(flow.EdgeGuards(p, b)); len(eg) > 0 {
+					guardSets = append(guardSets, eg[len(eg)-1:])
+				}
+			}
+		}
+		var allGuards []flow.Guard
+		seenG := map[string]bool{}
+		for _, gs := range guardSets {
+			for _, g := range gs {
+				k := fmt.Sprintf("%p/%v", g.Cond, g.Side)
+				if !seenG[k] {
+					seenG[k] = true
+					allGuards = append(allGuards, g)
+				}
+			}
+		}
+		for _, g := range allGuards {
 			bo, isB := g.Cond.(*ssa.BinOp)
 			if !isB || (bo.Op != token.NEQ && bo.Op != token.EQL) {
 				continue
